@@ -279,11 +279,11 @@ class Enc:
                     self.oracle(x, et)
             elif isinstance(v, (str, bytes)) and not isinstance(v, bytearray):
                 key = self.pv(v)
+                items = list(v)
                 if key not in self.tables["iter"]:
-                    items = list(v)
                     self.tables["iter"][key] = copt(clist(self.pv(x) for x in items))
-                    for x in items:
-                        self.oracle(x, et)
+                for x in items:             # also when the entry exists already (filled for another slot type)
+                    self.oracle(x, et)
             return
         needs = NEEDS[TYPE_MAP[tn]]
         if tn == "dynamic":
